@@ -32,8 +32,8 @@ TOLERANCES = {
 }
 ASSUMPTIONS = ["balances act on row vectors: x -> x @ A + b (apply_balance)", "a later stage is fitted on the swatches pre-balanced by the accumulated balance (AdaptiveBalance.find_balance)"]
 FLOORS = {
-    "quick": {"contract:residual_not_increased": 500, "exact_map_recovered": 150, "accumulated_equals_sequential": 140, "contract:stage_fit_logged": 500, "correction_recovers_reference_swatches": 20, "integer_source_swatches": 15, "staged_after_reset": 100},
-    "thorough": {"contract:residual_not_increased": 5000, "exact_map_recovered": 1500, "accumulated_equals_sequential": 1400, "contract:stage_fit_logged": 5000, "correction_recovers_reference_swatches": 200, "integer_source_swatches": 150, "staged_after_reset": 1000},
+    "quick": {"contract:residual_not_increased": 500, "exact_map_recovered": 150, "accumulated_equals_sequential": 140, "contract:stage_fit_logged": 500, "correction_recovers_reference_swatches": 20, "integer_source_swatches": 15, "staged_after_reset": 100, "staged_fit_final_residual_judged": 4, "noise_free_photo_corrected": 4},
+    "thorough": {"contract:residual_not_increased": 5000, "exact_map_recovered": 1500, "accumulated_equals_sequential": 1400, "contract:stage_fit_logged": 5000, "correction_recovers_reference_swatches": 200, "integer_source_swatches": 150, "staged_after_reset": 1000, "staged_fit_final_residual_judged": 40, "noise_free_photo_corrected": 40},
 }
 SHARD_TIMEOUT = {"quick": 1500, "thorough": 6000}
 MODES = ["diagonal", "linear", "affine"]
@@ -83,6 +83,7 @@ def run_shard(spec, R):
     from vf.attach import MonitorError
 
     stage_log = []  # (class name, scaling, translation) of every fit that happened, in order
+    last_adaptive = []  # the staged balance object of the last fit with the swatches it was given
 
     def residual(bal, src, dst):
         return float(np.sum((bal.apply_balance(src) - dst) ** 2))
@@ -93,6 +94,8 @@ def run_shard(spec, R):
     def post(self, swatches_src, swatches_dst, OLD):
         after = residual(self, swatches_src, swatches_dst)
         stage_log.append((type(self).__name__, np.array(self.balance_scaling, float).copy(), np.array(getattr(self, "balance_translation", np.zeros(3)), float).copy()))
+        if type(self).__name__ == "AdaptiveBalance":
+            last_adaptive[:] = [self, np.array(swatches_src, float).copy(), np.array(swatches_dst, float).copy()]
         R.count("contract:stage_fit_logged")
         key = "C12:adaptive_balance_composes_in_column_vector_order" if type(self).__name__ == "AdaptiveBalance" else None
         R.check(after <= OLD.before * (1 + 1e-9) + 1e-18, "contract:residual_not_increased",
@@ -112,6 +115,7 @@ def run_shard(spec, R):
 
         return run_repo_tests(R, spec["repo_tests"])
     errs_by_dtype = {}
+    dbg_fin = []
     for it in spec["items"]:
         if not R.want(["item", it["id"]]):
             continue
@@ -127,20 +131,44 @@ def run_shard(spec, R):
             corr = None
             for call in range(3):
                 dt = [np.float32, np.uint16, np.float64, np.uint8][(it["round"] + call) % 4]
-                arr, roi, ref = checker_photo(rng, darsia, (int(rng.integers(100, 140)), int(rng.integers(150, 200))), dt, linear_only=(it["cb"] == "linear"), ref=None if corr is None else ref0)
+                if call == 2:
+                    dt = [np.float32, np.uint16, np.float64][(it["round"] // 4) % 3]  # the noise-free photo is not 8 bit
+                amp = [0.08, 0.02, 3e-3, 5e-4][(it["round"] + call) % 4]  # strong to very weak colour casts
+                full = call == 2  # the third photo shows the checker at template size (noise-free swatch extraction)
+                arr, roi, ref = checker_photo(rng, darsia, (int(rng.integers(100, 140)), int(rng.integers(150, 200))), dt, linear_only=(it["cb"] == "linear"), ref=None if corr is None else ref0,
+                                              amplitude=amp, full_size=full)
                 if corr is None:
                     ref0 = ref
                     corr = darsia.ColorCorrection(base=darsia.CustomColorChecker(reference_colors=ref0), config={"roi": roi, "whitebalancing": it["wb"], "colorbalancing": it["cb"]})
                 else:
                     corr.roi = darsia.make_voxel(roi)
                 cv2.setRNGSeed(0)
+                del last_adaptive[:]
                 ok, out = R.guarded("colour_correction", lambda: corr.correct_array(arr))
                 if not ok:
                     break
+                if last_adaptive:
+                    # the swatches the correction itself extracted are an (up to float32 rounding) exact affine / linear
+                    # image of the reference: its accumulated staged balance reproduces the reference on them
+                    balo, s_src, s_dst = last_adaptive
+                    fin = float(np.max(np.abs(balo.apply_balance(s_src) - s_dst)))
+                    if full and np.dtype(dt) != np.uint8:
+                        R.check(fin <= 1e-4, "exact_map_recovered", lambda: {"whitebalancing": it["wb"], "colorbalancing": it["cb"], "cast_amplitude": amp, "dtype": np.dtype(dt).name,
+                                                                             "max_swatch_residual_of_staged_balance": fin, "via": "ColorCorrection on a noise-free checker photo"},
+                                group=f"correction/{it['wb']}/{it['cb']}")
+                        R.count("staged_fit_final_residual_judged")
                 cv2.setRNGSeed(0)
                 got = darsia.CustomColorChecker(image=corr._restrict_to_roi(out)).swatches_rgb
                 err = float(np.max(np.abs(got - ref0)))
                 errs_by_dtype.setdefault(np.dtype(dt).name, []).append(err)
+                if full and np.dtype(dt) != np.uint8:
+                    # noise-free photo: the swatches read off the corrected photo are the reference colours to optimiser
+                    # tolerance, whatever the strength of the colour cast
+                    dbg_fin.append((amp, np.dtype(dt).name, True, err))
+                    R.check(err <= 2e-4, "exact_map_recovered", lambda: {"whitebalancing": it["wb"], "colorbalancing": it["cb"], "cast_amplitude": amp, "dtype": np.dtype(dt).name,
+                                                                         "max_swatch_error_after_correction": err, "via": "ColorCorrection on a noise-free checker photo"},
+                            group=f"correction/{it['wb']}/{it['cb']}")
+                    R.count("noise_free_photo_corrected")
                 R.check(err <= 1.5e-2, "correction_recovers_reference_swatches", lambda: {"whitebalancing": it["wb"], "colorbalancing": it["cb"], "call": call, "dtype": np.dtype(dt).name, "max_swatch_error": err}, group=f"{it['wb']}/{it['cb']}")
             R.sig(["correction", it["wb"], it["cb"], it["round"]], True, cls="correction")
             continue
@@ -261,6 +289,13 @@ def run_shard(spec, R):
         R.sig(["staged", seq, layout, it["round"]], True, cls="staged/" + "/".join(seq))
         if it["id"] % 50 == 0:
             R.sample(case)
+    _dbg_dump(dbg_fin)
+
+
+def _dbg_dump(dbg):  # pragma: no cover (development aid)
+    import os
+    if os.environ.get("VERIF_DBG_C12") and dbg:
+        print("DBGFIN", sorted([d for d in dbg if d[2]], key=lambda t: -t[3])[:6])
 
 
 MANIFEST = {
